@@ -86,9 +86,29 @@ Section Oracle.
     forallb (fun k => implb (forallb (fun tr => shown_by p0 states tr k) aw) (ret_by o (S k)))
             (seq 0 (S (S (horizon aw)))).
 
-  Definition ok_timely (p0 : nat) (states : list state) (aw : list (@traj state))
+  (* the state is final, requested, or LATER than some requested state: in the
+     linear state model the entity has then reached (passed) that requested
+     state -- its value is >= the smallest requested value *)
+  Definition passed (states : list state) (s : state) : bool :=
+    is_final s || mem s states || existsb (fun q => (value q <=? value s)%Z) states.
+
+  Definition passed_by (p0 : nat) (states : list state) (tr : @traj state) (k : nat) : bool :=
+    existsb (fun j => passed states (at_ tr j)) (seq p0 (S k - p0)).
+
+  (* timely, reading 3 ("reached", wait_tasks only -- the other calls are
+     membership based): once every awaited task HAS REACHED a requested state,
+     i.e. shows at some tick p0 <= j <= k a state that is requested, later than
+     a requested one, or final -- it may have been past it when the call began,
+     or have jumped over it between two ticks -- the call has returned by k+1 *)
+  Definition ok_timely_reached (p0 : nat) (states : list state) (aw : list (@traj state))
     (o : @res state) : bool :=
-    ok_timely_all states aw o && ok_timely_each p0 states aw o.
+    forallb (fun k => implb (forallb (fun tr => passed_by p0 states tr k) aw) (ret_by o (S k)))
+            (seq 0 (S (S (horizon aw)))).
+
+  Definition ok_timely (p0 : nat) (lib : bool) (states : list state) (aw : list (@traj state))
+    (o : @res state) : bool :=
+    ok_timely_all states aw o && ok_timely_each p0 states aw o
+    && (if lib then ok_timely_reached p0 states aw o else true).
 
   (* with a timeout of T > 0 ticks the call has returned by tick T+1 *)
   Definition ok_timeout (T : option nat) (o : @res state) : bool :=
@@ -125,10 +145,10 @@ Section Oracle.
     find_all tab (snd (sel_pilots seqb final tab u)).
   Definition as_list (u : uidsel) : bool := match u with UOne _ => false | _ => true end.
 
-  Definition clauses (p0 : nat) (lst : bool) (states : list state) (T term : option nat)
+  Definition clauses (p0 : nat) (lib lst : bool) (states : list state) (T term : option nat)
     (aw : option (list (@traj state))) (o : @res state) : list bool :=
     match aw with
-    | Some a => [ ok_truthful lst a o; ok_timely p0 states a o; ok_timeout T o;
+    | Some a => [ ok_truthful lst a o; ok_timely p0 lib states a o; ok_timeout T o;
                   ok_justified states T term a o; ok_no_exception true o ]
     | None => [ match o with Returned _ _ => false | _ => true end; true; true; true; true ]
     end.
@@ -136,17 +156,17 @@ Section Oracle.
   Definition entity_row (r : req) (T term : option nat) (fuel : nat) (tr : traj)
     (o : @res state) : list bool :=
     res_eqb (entity_wait seqb final r T term fuel tr) o
-    :: clauses 0 false (norm final r) T term (Some [tr]) o.
+    :: clauses 0 false false (norm final r) T term (Some [tr]) o.
 
   Definition wait_tasks_row (r : req) (T term : option nat) (fuel : nat)
     (tab : table) (u : uidsel) (o : @res state) : list bool :=
     res_eqb (wait_tasks seqb final value r T term fuel tab u) o
-    :: clauses 1 (as_list u) (norm final r) T term (awaited_tasks tab u) o.
+    :: clauses 1 true (as_list u) (norm final r) T term (awaited_tasks tab u) o.
 
   Definition wait_pilots_row (r : req) (T term : option nat) (fuel : nat)
     (tab : table) (u : uidsel) (o : @res state) : list bool :=
     res_eqb (wait_pilots seqb final r T term fuel tab u) o
-    :: clauses 0 (as_list u) (norm final r) T term (awaited_pilots tab u) o.
+    :: clauses 0 false (as_list u) (norm final r) T term (awaited_pilots tab u) o.
 End Oracle.
 
 (* rows for the four calls, on the generated tables *)
